@@ -370,7 +370,8 @@ class Check:
         self.cov['transitions'] += r.generated
 
     def nontrivial(self, key):
-        self._nontrivial.add(key)
+        # (the hash, not the key: millions of keys are counted in the thorough tier)
+        self._nontrivial.add(hash(key))
 
     def sample(self, x, limit=8):
         if len(self.cov['samples']) < limit:
